@@ -21,6 +21,9 @@ import hypothesis
 from hypothesis import HealthCheck, Phase, Verbosity, given, settings
 from hypothesis import strategies as st
 
+import warnings
+warnings.filterwarnings("ignore", category=hypothesis.errors.HypothesisWarning)
+
 VERIF_DIR = os.path.dirname(os.path.dirname(os.path.abspath(__file__)))
 
 
